@@ -37,9 +37,12 @@ IsNat(t) == Len(t) > 0 /\ Len(t) <= 9 /\ \A i \in 1..Len(t) : Chr(t, i) \in Digi
 IsDigits(t) == Len(t) > 0 /\ \A i \in 1..Len(t) : Chr(t, i) \in DigitSet       \* any width: atom indices are only compared
 RECURSIVE NormIdx(_)
 NormIdx(t) == IF Len(t) > 1 /\ Chr(t, 1) = "0" THEN NormIdx(SubSeq(t, 2, Len(t))) ELSE t   \* "007" and "7" are one index
-IsInt(t) == IsNat(t) \/ (Len(t) > 1 /\ Chr(t, 1) \in {"-", "+"} /\ IsNat(SubSeq(t, 2, Len(t))))
-Int10(t) == IF Chr(t, 1) = "-" THEN 0 - Nat10(SubSeq(t, 2, Len(t)))
-            ELSE IF Chr(t, 1) = "+" THEN Nat10(SubSeq(t, 2, Len(t))) ELSE Nat10(t)
+\* property values (CHG, RAD, MASS) of any width: below 10^8 the value itself, above it 10^8 + the last nine digits
+\* (the same reading as spec/Grammar.tla: NumVal and harness/project.py: fingerprint -- TLC integers are 32 bit)
+NatF(t) == LET u == NormIdx(t) IN IF Len(u) <= 8 THEN Nat10(u) ELSE 100000000 + Nat10(SubSeq(u, Len(u) - 8, Len(u)))
+IsInt(t) == IsDigits(t) \/ (Len(t) > 1 /\ Chr(t, 1) \in {"-", "+"} /\ IsDigits(SubSeq(t, 2, Len(t))))
+Int10(t) == IF Chr(t, 1) = "-" THEN 0 - NatF(SubSeq(t, 2, Len(t)))
+            ELSE IF Chr(t, 1) = "+" THEN NatF(SubSeq(t, 2, Len(t))) ELSE NatF(t)
 
 RECURSIVE CatS(_)
 CatS(ss) == IF ss = <<>> THEN "" ELSE ss[1] \o CatS(Tail(ss))
